@@ -49,6 +49,7 @@ def run(prog, tier, extra=None):
     R1 = res.rule("C02.no-wrap", "amount-derived u64 values are not added/multiplied/summed with wrap-around or overflow panic before validation", floor=3)
     R2 = res.rule("C02.inflation-gate", "Transaction::validate accepts a non-privileged transaction only through total_out <= total_in", floor=1)
     R4 = res.rule("C02.fee-counted", "the fee of every user-signed transaction type (Normal, GoldenTicket, Vip, BlockStake, Bound) is added to the block's collected fees", floor=5)
+    R5 = res.rule("C02.bound-outputs-constrained", "Transaction::validate accepts a Bound (NFT) transaction only after a scan of its outputs beyond the group (to[3..]) for slip types", floor=1)
     R3 = res.rule("C02.payout-exact", "Block::validate accepts a block only with exactly the fee transaction its consensus values call for", floor=3)
     cg = CallGraph(prog, [u for u in prog.units if u.crate == "saito_core"])
     roots = [TX + "generate", CORE + "consensus::block::Block::generate"]
@@ -165,6 +166,36 @@ def run(prog, tier, extra=None):
             else:
                 res.add(Finding(R4, "C02.fee-counted|%s" % v4, "generate_consensus_values never adds the fee of a %s transaction to total_fees_new: inputs minus outputs of such a transaction "
                                 "are counted nowhere - the tokens are destroyed, and Blockchain::check_total_supply aborts the node after the block is wound" % v4, gcv4.loc(sorted(adds4)[0])))
+    # R5: the amount of a Bound slip is not counted as an output (total_out skips it), so a Bound output outside the NFT group
+    # costs its creator nothing - and the single-slip rebroadcast later re-issues any unspent slip as a spendable ATR slip of the same
+    # amount. Both NFT branches (create, send) therefore have to refuse non-Normal outputs after the group: every accepting path for
+    # the Bound type passes a loop over self.to with a skip(..) adaptor that tests slip_type.
+    tv5 = tv
+    ch5 = Chaser(tv5)
+    scans5 = set()
+    for bb, t in tv5.calls():
+        if call_name(t) == "std::iter::Iterator::next" and t["args"]:
+            it = ch5.origin(t["args"][0])
+            if has_field(it, "transaction::Transaction", "to") and not has_field(it, "transaction::Transaction", "from") and \
+                    any(y[0] in ("call", "via") and y[1].rsplit("::", 1)[-1] == "skip" for y in walk(it)):
+                h5 = tv5.innermost_loop_containing([bb])
+                if h5 is not None:
+                    loop5 = tv5.natural_loop(h5)
+                    tests_type = any(st[0] == "=" and has_field(ch5.rvalue(st[2], 0), "slip::Slip", "slip_type") for lb in loop5 for st in tv5.stmts(lb)) or \
+                        any(tv5.term(lb)["k"] == "call" and any(has_field(ch5.origin(a), "slip::Slip", "slip_type") for a in tv5.term(lb)["args"]) for lb in loop5)
+                    if tests_type:
+                        scans5.add(h5)
+    res.instance(R5)
+    known5 = {}
+    dead5 = gate.edges_not_taken_when(prog, tv5, ch5, "transaction::TransactionType", "transaction_type", "Bound", known=known5)
+    f5 = Explorer(tv5, fixed_locals=dict(known5)).explore(0, deleted_edges=dead5, blocked=scans5, accept=gate.make_accept(tv5, return_true=True))
+    if f5:
+        kind5, path5 = sorted(f5.items())[0]
+        res.add(Finding(R5, "C02.bound-outputs-constrained|bypass", "Transaction::validate can accept a Bound transaction without having scanned its outputs after the NFT group (to[3..]) for their "
+                        "slip type: an extra Bound output of any amount is accepted (its amount is not counted in total_out) and is later rebroadcast as spendable tokens",
+                        tv5.loc(path5[-1]), {"path": describe_path(tv5, path5), "scans_of_to": [tv5.loc(x) for x in sorted(scans5)]}))
+    else:
+        res.sample({"rule": R5, "scans_of_to": [tv5.loc(x) for x in sorted(scans5)], "verdict": "every accepting path of the Bound type passes one"})
     # R3: the fee transaction is the one place where outputs are created without inputs. generate_consensus_values derives the
     # expected one (cv.fee_transaction); Block::validate must (i) compare it whenever one is expected - a block that omits it
     # loses the payout -, (ii) compare it whenever the block carries one - an unexpected Fee transaction mints tokens -, and
